@@ -180,6 +180,29 @@ func checkC14(c *Ctx) {
 	c.R.Min("R-same-callee", 7)
 	c.R.Min("R-ping", 1)
 
+	// ---- R-session-independent: the shared handlers never read request-independent state back from the
+	// session object (transports pass different sessions: none, a throw-away one, a persistent one), so the
+	// answer cannot depend on the transport's session mode.
+	var roots []*ssa.Function
+	for _, m := range commonMethods {
+		roots = append(roots, mapRoute[m])
+	}
+	roots = append(roots, swFn)
+	nRead := 0
+	for _, fn := range sortedFuncs(c.ReachSync(roots...)) {
+		ir.EachCall(fn, func(call ssa.CallInstruction) {
+			if n := ir.CallName(call); n == "(mcp.Session).GetData" {
+				nRead++
+				c.R.Violate("R-session-independent", "session data read in "+fname(fn), c.Pos(call.Pos()),
+					sprintf("%s reads data back from the session while serving a common method: servers whose transport passes no (or a throw-away) session answer differently", fname(fn)))
+			}
+		})
+	}
+	if nRead == 0 {
+		c.R.Hold("R-session-independent", "common method handlers never read session data", "", "no (Session).GetData in code reachable from the 8 common handlers")
+	}
+	c.R.Min("R-session-independent", 1)
+
 	c14Wrappers(c)
 	c03Passthrough(c)
 	c14ClientDecoders(c)
